@@ -119,7 +119,7 @@ Proof.
     [|apply dec_np].
   cbv zeta. apply np_if; auto with np.
   match goal with |- np (match ?X with _ => _ end) => assert (HX : np X) by apply Hsig; destruct X; auto with np end.
-  destruct (skip_tags (strip_sd v)) as [y|]; auto with np. destruct y; auto with np. destruct l0; auto with np.
+  destruct (strip_sd v) as [| |? l0| | |]; auto with np. destruct l0; auto with np.
   match goal with |- np (match ?X with _ => _ end) => assert (HY : np X); [|destruct X; auto with np; contradiction] end.
   apply np_comb; auto with np.
   generalize l0. intros ll.
